@@ -513,6 +513,33 @@ class SourceCoverage:
         return out
 
 
+def modelled_fingerprints(mod):
+    """sha1 of the normalised AST of every function named in MODELLED_FUNCS (informational: tells a reader of the evidence
+    which modelled functions changed textually since tools/fingerprints.json was last refreshed; never a verdict)"""
+    import ast
+    out = {}
+    for rel, names in (getattr(mod, 'MODELLED_FUNCS', None) or {}).items():
+        f = os.path.join(REPO, rel)
+        try:
+            tree = ast.parse(open(f).read())
+        except Exception:
+            continue
+        spans = {}
+
+        def walk(node, prefix):
+            for ch in ast.iter_child_nodes(node):
+                if isinstance(ch, (ast.FunctionDef, ast.AsyncFunctionDef, ast.ClassDef)):
+                    spans[prefix + ch.name] = ch
+                    walk(ch, prefix + ch.name + '.')
+        walk(tree, '')
+        for q in names:
+            if q in spans:
+                out['%s::%s' % (rel, q)] = hashlib.sha1(ast.dump(spans[q], include_attributes=False).encode()).hexdigest()[:16]
+            else:
+                out['%s::%s' % (rel, q)] = 'missing'
+    return out
+
+
 def load_known():
     p = os.path.join(ROOT, 'known_findings.json')
     if os.path.exists(p):
@@ -811,6 +838,14 @@ def main_check(prop_id, tier, seed, replay=None):
         'exhaustive': bool(cov.get('exhaustive', False)),
     }
     coverage.update({k: v for k, v in cov.items() if k != 'exhaustive'})
+    fp = modelled_fingerprints(mod)
+    if fp:
+        try:
+            ref = json.load(open(os.path.join(ROOT, 'tools', 'fingerprints.json'))).get(prop_id, {})
+        except Exception:
+            ref = {}
+        coverage['modelled_functions'] = len(fp)
+        coverage['modelled_functions_changed_since_fingerprint'] = sorted(k for k, v in fp.items() if ref.get(k) != v)
     sc = srccov.report()
     if sc:
         coverage['anchored_source_statement_coverage'] = sc
